@@ -493,6 +493,43 @@ def gen_values(rng, tier, hist, per_kind=None):
         for kind in ("v2.beat", "v1.beat", "v2.ovw", "v1.ovw", "v1.hires"):
             for _ in range(4):
                 out.append((kind, g.value(kind, big=True)))
+    out += big_incompressible(rng, tier, hist)
+    # the witnesses of the Lean `_counterexample` theorems, replayed on the real library on every run
+    out.append(("v1.track", dict(sr="3ff0000000000000", sc=255, loud=None, key=0)))     # C03_v1_track_roundtrip_counterexample
+    out.append(("v1.beat", dict(sr=NEGZERO, sc=None, dflt=[], adj=[])))                  # C03_v1_beat_roundtrip_counterexample
+    return out
+
+
+def big_incompressible(rng, tier, hist):
+    """Values whose payload is 17-100 KB of noise: their deflate stream does not fit one 16 KiB output
+    buffer, so the multi-buffer paths of zlib_compress / zlib_uncompress are exercised on every run
+    (every compressed kind that can grow: waveforms, extra_data of the 2.x structs, long grids)."""
+    g = Gen(rng, hist)
+
+    def noise(n):
+        return bytes(rng.getrandbits(8) for _ in range(n))
+
+    sizes = [17000, 24000] if tier == "quick" else [16384, 17000, 24000, 50000, 100000]
+    out = []
+    for n in sizes:
+        out.append(("v2.ovw", dict(spp=g.f(), pts=noise(3 * (n // 3)), mx=noise(3), extra=b"")))
+        out.append(("v2.beat", dict(sr=g.f(), samples=g.f(), flag=1, dflt=[], adj=[], extra=noise(n))))
+        out.append(("v2.track", dict(sr=g.f(), samples=g.i64(), key=g.i32(), lo=g.f(), mid=g.f(), hi=g.f(),
+                                     extra=noise(n))))
+        out.append(("v2.cues", dict(cues=[(b"x", g.f(), (1, 2, 3, 4))], adj=g.f(), flag=1, dflt=g.f(), extra=noise(n))))
+        out.append(("v1.hires", dict(spe=g.f(), wf=noise(6 * (n // 6)))))
+        w = bytearray(noise(6 * (n // 3)))
+        for i in range(len(w) // 6):
+            w[6 * i + 3] = w[6 * i + 4] = w[6 * i + 5] = 255
+        out.append(("v1.ovw", dict(spe=g.f(), wf=bytes(w))))
+        # a long valid 1.x grid with noisy offsets (24 bytes per marker)
+        m, off, grid = n // 24, 0.0, []
+        for i in range(min(m, 32768)):
+            off += rng.uniform(0.001, 1e6)
+            grid.append((4 * i, dbits(off)))
+        out.append(("v1.beat", dict(sr=dbits(44100.0), sc=dbits(1e7), dflt=grid, adj=[])))
+    for (k, _) in out:
+        hist["big_incompressible:" + k] = hist.get("big_incompressible:" + k, 0) + 1
     return out
 
 
